@@ -21,8 +21,7 @@ RULE = (
 )
 ASSUMPTIONS = [
     "which message is closing is known from the scenario (reference semantics of vf/sim/scenario.closes_connection and the injected fault)",
-    "for a fault in the worker's own flush the decision point is the send() that raised; requests that started before it are not judged",
-    "for a client fault seen by the I/O thread (failing recv(), unwritable 100 Continue) the decision point is the step at which a closing "
+    "for every fault kind (failing send() in the worker's or the I/O thread's flush, failing recv(), unwritable 100 Continue) the decision point is the step at which a closing "
     "flag is set or `connected` is cleared, and a request starts when a worker enters service() for it (a worker that had already passed "
     "the channel's connected test goes on legitimately)",
 ]
@@ -297,10 +296,19 @@ def judge(scn, o):
     if kind == "send-fault":
         # the decision is taken when the injected errno surfaces; only what
         # *starts* after that is judged
-        fstep = getattr(w, "fault_step", None)
-        if fstep is None:
+        if getattr(w, "fault_step", None) is None:
             return out  # fault never reached (e.g. everything fitted before it)
-        late = [i for step, i in entered if step > fstep and i > m]
+        # the failing send() may be the I/O thread's (both threads flush): the decision is taken when
+        # will_close is set, which a schedule can delay well beyond the failing call
+        fstep = getattr(w, "c11_decision", {}).get(cid)
+        if fstep is None:
+            return out
+        starts = sorted(getattr(w, "c11_service_starts", {}).get(cid, []))
+        late = []
+        for step, i in entered:
+            began = max([x for x in starts if x <= step], default=None)
+            if began is not None and began > fstep and i > m:
+                late.append(i)
         if not [1 for step, i in entered if i == m]:
             return out
     if kind in ("recv-fault", "continue-send-fault"):
